@@ -744,6 +744,11 @@ class Flow(object):
                     info = self.atom_info.get(m[0])
                     if info and info[0] == "mod" and info[2] == r:
                         return l
+                    # (x & c) % d == x & c  when 0 <= c < d
+                    if info and info[0] == "BitAnd":
+                        for cc in (info[1], info[2]):
+                            if cc.is_const() and 0 <= cc.const_value() < d:
+                                return l
         name = "mod(%r, %r)" % (l, r)
         return self._composite(name, [l, r], ("mod", l, r))
 
